@@ -16,11 +16,13 @@ RULE = ('laws: a generated tree (dict with str/int keys, list, tuple, ndarray, s
         'and the (first) path shares a proper prefix with another leaf; distinct = distinct canonical case JSON')
 ASSUMPTIONS = [
     'reference = vlib/oracles/tree_ref.py (copy-on-write set, DFS leaf enumeration) written from the TreeMapView docstrings',
-    'root is a container; dict keys never equal the reserved words SELF/SKIP; views scenario trees contain no empty containers '
+    'root is a container; dict keys may be the plain strings "SELF"/"SKIP" (the reserved keys are the Key.SELF / Key.SKIP objects); '
+    'the same inner container object may appear at two paths (never inside itself); views scenario trees contain no empty containers '
     '(the code treats them as leaves, the docstring is silent)',
 ]
 
-KEYS = ['a', 'b', 'c', 'x1', 0, 1, 7]
+# 'SELF' / 'SKIP' as plain strings are ordinary dict keys (the reserved keys are the Key.SELF / Key.SKIP objects)
+KEYS = ['a', 'b', 'c', 'x1', 0, 1, 7, 'SELF', 'SKIP']
 
 
 def _key(path):
@@ -55,6 +57,10 @@ def run_laws(case):
   from ml_metrics._src.chainables import tree  # pylint: disable=g-import-not-at-top
   cur = tr.decode(case['tree'])
   model = tr.decode(case['tree'])
+  shared = False
+  if case.get('share'):
+    shared = tr.share(cur, *case['share'])
+    tr.share(model, *case['share'])
   nontrivial = False
   classes = set()
   for oi, op in enumerate(case['ops']):
@@ -98,6 +104,8 @@ def run_laws(case):
     if not path:
       classes.add('SELF')
     cur, model = new, want
+  if shared:
+    classes.add('shared-subtree')
   return {'nontrivial': nontrivial, 'classes': sorted(classes)}
 
 
@@ -154,6 +162,9 @@ def strat_laws(tier):
   def s(draw):
     tj = draw(_root(4, True))
     model = tr.decode(tj)
+    share = [draw(st.integers(0, 5)), draw(st.integers(0, 5))] if draw(st.integers(0, 3)) == 0 else None
+    if share:
+      tr.share(model, *share)
     ops = []
     for _ in range(draw(st.integers(1, 6))):
       kind, path = draw(_path_for(model))
@@ -165,7 +176,7 @@ def strat_laws(tier):
       model = tr.ref_set(model, [tuple(c) for c in path], tr.decode(vj))
       if not tr.is_container(model):
         break
-    return {'tree': tj, 'ops': ops}
+    return {'tree': tj, 'ops': ops, 'share': share}
   return s()
 
 
@@ -200,6 +211,7 @@ def _eq_mapped(a, b):
 def run_views(case):
   from ml_metrics._src.chainables import tree  # pylint: disable=g-import-not-at-top
   data = tr.decode(case['tree'])
+  shared = bool(case.get('share')) and tr.share(data, *case['share'])
   snap = tr.snapshot(data)
   view = tree.TreeMapView(data)
   ref_leaves = list(tr.leaves(data))
@@ -272,7 +284,7 @@ def run_views(case):
     check(tr.deep_equal(data, snap), 'original-mutated', f'{what} changed by copy_and_update: {data!r}')
   paths = [p for p, _ in ref_leaves]
   nt = _depth(data) >= 2 and any(len(p) >= 2 and sum(1 for q in paths if q[0] == p[0]) >= 2 for p in paths)
-  cl = [f'depth-{_depth(data)}']
+  cl = [f'depth-{_depth(data)}'] + (['shared-subtree'] if shared else [])
   if upd:
     cl.append('update')
   if multi:
@@ -285,6 +297,9 @@ def strat_views(tier):
   def s(draw):
     tj = draw(_root(4, False))
     data = tr.decode(tj)
+    share = [draw(st.integers(0, 5)), draw(st.integers(0, 5))] if draw(st.integers(0, 3)) == 0 else None
+    if share:
+      tr.share(data, *share)
     node_paths = [p for p, _ in tr.nodes(data) if p]
     multi = []
     for _ in range(draw(st.integers(0, 4))):
@@ -311,7 +326,7 @@ def strat_views(tier):
         seen.add(repr(p)); upd2.append([p, vj])
     if len(upd2) != len(upd):
       upd2 = []
-    return {'tree': tj, 'multi': multi, 'update': upd2, 'as_key': draw(st.booleans())}
+    return {'tree': tj, 'multi': multi, 'update': upd2, 'as_key': draw(st.booleans()), 'share': share}
   return s()
 
 
